@@ -64,7 +64,7 @@ CHECKS = {
     note=TB + "; the handler returns normally with errno intact; listed value-level assumptions for four nested copies (sa/checks/c05.py ASSUME_QUIET); 46 triaged known findings (reproduced representatives) remain in known_findings.json"),
  "C04": dict(
     engine="pathflags",
-    technique="path-sensitive abstract interpretation with a destination typestate (written / cleared-at-entry-pointer / cleared-over-dmax), clearing lengths compared symbolically with the entry dmax (or the known object size); exemptions from path facts; source-write rule from inter-procedural write summaries",
+    technique="path-sensitive abstract interpretation with a destination typestate (written / cleared-at-entry-pointer / cleared-over-dmax), clearing lengths compared symbolically with the entry dmax (or the known object size); null-source exits must clear all dmax elements; exemptions from path facts; source-write rule from inter-procedural write summaries",
     category="other",
     text="Every error exit of the 40 destination-writing functions is covered on all paths: dest must have been cleared at its entry value since the last write, over all dmax elements once the call has written (default build; thorough adds the no-slack configuration, where the first element suffices). The rule checks what is cleared - entry pointer and entry length, which is what orig_dest/orig_dmax exist for - so clearing from an advanced cursor or with a decremented counter is caught. Which exits are errors follows the function's return convention.",
     design_ref="DESIGN.md §3.3, §4 C04",
@@ -94,7 +94,7 @@ CHECKS = {
     engine="capcheck",
     technique="same relational abstract interpretation as C01 applied to every load and reading effect; facts must hold at the evaluation of the access (deref-before-counter loops fail); NUL-bounded libc readers on length-declared buffers are undischargeable by construction",
     category="other",
-    text="Each load, memcpy source, libc reader and helper call carries the obligation that the read range lies inside the declared extent (dmax of dest, slen/n/len of a length-declared source, local arrays, constant tables), including lower bounds for backward scans. 304 of 444 obligations are discharged; 22 known findings; 118 obligations in listed reach-limited functions are not claimed. A nested call to a library function that never writes its dest (42 search/compare functions, from the write summaries) is a read obligation on the length handed down. A pointer without a declared length that the function measures with strnlen_s/wcsnlen_s gets the measured length (+ terminator) as its extent from there on; other sources without a declared length produce no obligations (that they are read only up to their terminator is not decided). Thorough: also the no-slack configuration.",
+    text="Each load, memcpy source, libc reader and helper call carries the obligation that the read range lies inside the declared extent (dmax of dest, slen/n/len of a length-declared source, local arrays, constant tables), including lower bounds for backward scans. 304 of 444 obligations are discharged; 22 known findings; 118 obligations in listed reach-limited functions are not claimed. A nested call to a library function that never writes its dest (42 search/compare functions, from the write summaries) is a read obligation on the length handed down. A pointer without a declared length that the function measures with strnlen_s/wcsnlen_s gets the measured length (+ terminator) as its extent from there on; other pointer parameters without a declared length carry the lower-bound obligation only (nothing is read in front of the buffer; searcher results are interior pointers of their argument), that they are read only up to their terminator is not decided. Thorough: also the no-slack configuration.",
     design_ref="DESIGN.md §3.2, §4 C02",
     note=TB + "; truthfulness premise; functions in tables/cap_reach.json are not analysed and not claimed; two fix: commits in /repo repaired 31 deref-before-counter loops"),
  "C07": dict(
